@@ -6,7 +6,7 @@ Import ListNotations.
 Open Scope N_scope.
 
 Theorem C09_example_silent_peer :
-  let '(s, _, ok) := canonical (mkscen (mkcfg 30 40 10 4) CAccept [mkact false None false false] 1 1 20 0 false) in
+  let '(s, _, ok) := canonical (mkscen (mkcfg 30 40 10 4 100000) CAccept [mkact false None false false] 1 1 20 0 false) in
   ok = true /\ model_calls s = [(OTimeout, 20)] /\ queueLen s = 0%Z /\ invokeNum s = 0%Z /\ resp s = [].
 Proof. exact CallLifeProofs.silent_peer_times_out. Qed.
 Print Assumptions C09_example_silent_peer.
